@@ -6,6 +6,7 @@
 //@function src/engine/auth/user_ops.rs::validate_user_id
 //@harness name=reserved_ids_rejected kind=bounded bound="user ids of exactly 6 and 7 symbolic bytes (the lengths of the two reserved ids)" tier=quick timeout=1800
 //@harness name=charset_enforced kind=bounded bound="user ids of 1..=3 symbolic ASCII bytes" tier=quick timeout=900
+//@harness name=reserved_ids_any_length_8 kind=bounded bound="user ids of 0..=8 symbolic ASCII bytes" tier=thorough timeout=3600 gate=yes
 //@obligation C13.user_id.validate_user_id.not_reserved : no accepted user id equals an id that the handlers treat as 'skip the permission check' (BYPASS_USER_ID, NO_AUTH_USER_ID): no choice of user id bypasses the checks
 //@obligation C13.user_id.validate_user_id.charset : an accepted ASCII id consists of letters, digits, '_' and '-' only and is non-empty
 
@@ -54,4 +55,19 @@
         kani::cover!(ok && len == 3, "COVER:accepted");
         kani::cover!(!ok && len == 3, "COVER:rejected");
         assert!(ok == all_allowed, "OBL:C13.user_id.validate_user_id.charset");
+    }
+
+    #[kani::proof]
+    #[kani::unwind(10)]
+    fn reserved_ids_any_length_8() {
+        let b: [u8; 8] = kani::any();
+        let mut i = 0;
+        while i < 8 { kani::assume(b[i] < 0x80); i += 1; }
+        let len: usize = kani::any();
+        kani::assume(len <= 8);
+        let s = unsafe { std::str::from_utf8_unchecked(&b[..len]) };
+        let ok = validate_user_id(s).is_ok();
+        let reserved = (len == 6 && b[..6] == *b"bypass") || (len == 7 && b[..7] == *b"no-auth");
+        kani::cover!(ok && len == 8, "COVER:accepted_8");
+        assert!(!(ok && reserved), "OBL:C13.user_id.validate_user_id.not_reserved");
     }
